@@ -476,3 +476,48 @@ Theorem C19_direction_irrelevant : forall (ns : list rnode) (A A' : list rarc),
   complex_graph_nodes (RG ns A') = complex_graph_nodes (RG ns A).
 Proof. exact direction_irrelevant. Qed.
 Print Assumptions C19_direction_irrelevant.
+
+(** (30) the reading rules for node / arc attributes (utils._split_species_reactions, _complex_vectors), for ANY attributed graph:
+         kind "species" (Some 0) or bipartite flag 0 makes a species even when the other attribute says reaction; a reaction
+         needs kind "reaction" (Some 1) or flag 1 and must not be a species; nothing else is either.  An arc without a stoich
+         attribute counts with coefficient 1; an arc without a known role, or whose other end is not a species node
+         ([counts_for] false), contributes nothing to the vectors of a reaction node. *)
+Theorem C19_attribute_rules :
+  (forall n : rnode,
+     (is_species n = true <-> rn_kind n = Some 0 \/ rn_bflag n = Some 0%Z) /\
+     (is_reaction n = true <-> is_species n = false /\ (rn_kind n = Some 1 \/ rn_bflag n = Some 1%Z)) /\
+     (is_species n = true -> is_reaction n = false)) /\
+  (forall (ns : list rnode) (A : list rarc) (r : N),
+     node_vecs (RG ns (map (fun a => RArc (ra_u a) (ra_v a) (ra_role a) (Some (match ra_stoich a with Some c => c | None => 1%Z end))) A)) r
+       = node_vecs (RG ns A) r /\
+     node_vecs (RG ns (filter (counts_for (RG ns A) r) A)) r = node_vecs (RG ns A) r).
+Proof. exact attribute_rules. Qed.
+Print Assumptions C19_attribute_rules.
+
+(** (31) max_complex_size in terms of the reactions (unique edge ids): it is the largest total coefficient (molecularity) of a
+         reactant or product side — attained by some side, and no side exceeds it. *)
+Theorem C19_max_complex_size : forall (net : list rxn) (iso : list str), NoDup (map rid net) -> net <> [] ->
+  let mx := max_complex_size (fst (complex_graph net iso)) in
+  (exists e ro, In e net /\ side_total (side_of ro e) = mx) /\
+  (forall e ro, In e net -> (side_total (side_of ro e) <= mx)%Z).
+Proof. exact max_complex_size_molecularity. Qed.
+Print Assumptions C19_max_complex_size.
+
+(** (32) the last summary wins: a call that (re)computes the summary on a network with reactions — compute_summary,
+         compute_crn_deficiency, run_deficiency_one_algorithm on an object without a summary — stores exactly the network it was
+         handed, whatever the object held before (so, with (17), everything reported afterwards describes the CURRENT network until
+         the next edit). *)
+Theorem C19_api_summary_current : forall (o : opts) (c : call) (st : ast), hs_net (c_x c) <> [] ->
+  (c_op c = OSummary \/ (exists f, c_op c = OCrn f) \/ (c_op c = OOne /\ s_sum st = None)) ->
+  s_sum (fst (apply_op o c st)) = Some (snap_of o (c_x c)).
+Proof. exact api_summary_current. Qed.
+Print Assumptions C19_api_summary_current.
+
+(** (33) identifier level, the rest of the observable: the species labels in index order and the node counts of the export are
+         the species order / species count / reaction count of the label-level model (any identifier assignment). *)
+Theorem C19_nodes_labels : forall (ids idr : str -> N) (net : list rxn) (iso : list str),
+  map eff_label (species_sorted (raw_export ids idr net iso)) = species_order net iso /\
+  length (species_nodes (raw_export ids idr net iso)) = length (species_order net iso) /\
+  length (reaction_nodes (raw_export ids idr net iso)) = length (reaction_order net).
+Proof. exact nodes_labels. Qed.
+Print Assumptions C19_nodes_labels.
